@@ -14,6 +14,7 @@ import (
 	"fmt"
 	"net/url"
 	"os"
+	"reflect"
 	"runtime"
 	"sort"
 	"strings"
@@ -242,6 +243,48 @@ func c07Exec(repo rule.Repository, op c07Op) string {
 	}
 }
 
+// c07Extras: methods of the repository other than the four of rule.Repository that can be called without
+// inventing structured arguments (none, or strings / ints / bools).  If the code grows such a method, readers call
+// it concurrently so that the race detector sees it; its results are not part of the history.
+func c07Extras(repo any) []func() {
+	known := map[string]bool{"FindRule": true, "AddRuleSet": true, "UpdateRuleSet": true, "DeleteRuleSet": true}
+	v := reflect.ValueOf(repo)
+	t := v.Type()
+
+	var out []func()
+
+	for i := 0; i < t.NumMethod(); i++ {
+		m := t.Method(i)
+		if known[m.Name] {
+			continue
+		}
+
+		mt := m.Type
+		args := []reflect.Value{}
+		ok := !mt.IsVariadic()
+
+		for a := 1; a < mt.NumIn() && ok; a++ {
+			switch mt.In(a).Kind() {
+			case reflect.String, reflect.Int, reflect.Int64, reflect.Bool:
+				args = append(args, reflect.Zero(mt.In(a)))
+			default:
+				ok = false
+			}
+		}
+
+		if ok {
+			mv := v.Method(i)
+			out = append(out, func() {
+				defer func() { _ = recover() }()
+
+				mv.Call(args)
+			})
+		}
+	}
+
+	return out
+}
+
 // c07Run executes the plan on a fresh real repository; returns the history (nil on deadlock).
 func c07Run(p c07Plan, r *vf.Rand) ([]c07Rec, bool) {
 	fac := &ruleFactory{}
@@ -251,6 +294,7 @@ func c07Run(p c07Plan, r *vf.Rand) ([]c07Rec, bool) {
 	}
 
 	repo := newRepository(fac)
+	extras := c07Extras(repo)
 
 	var (
 		clock atomic.Int64
@@ -316,6 +360,12 @@ func c07Run(p c07Plan, r *vf.Rand) ([]c07Rec, bool) {
 				res := c07Exec(repo, op)
 				ret := clock.Add(1)
 				local = append(local, c07Rec{Thr: ti, Op: op, Res: res, Inv: inv, Ret: ret})
+
+				if op.Kind == "find" {
+					for _, f := range extras {
+						f()
+					}
+				}
 			}
 
 			mu.Lock()
